@@ -330,4 +330,204 @@ theorem ean13_core (T : Tables) (hWF : WFUpcEan T = true) (k : EanKind) (hk : k 
       rw [hres, hacc]
       simp [digitBytes]
 
+/-! ## UPC-E -/
+
+theorem upce_key (s full : List Nat) (h : upceWriterContents s = .ok full) :
+    allDigits s = true ∧ (s.length = 7 ∨ s.length = 8) ∧ (s.head? = some 48 ∨ s.head? = some 49) := by
+  unfold upceWriterContents at h
+  by_cases h7 : s.length = 7
+  · simp only [h7, if_true] at h
+    cases hc : convertUPCEtoUPCA s with
+    | error e => simp [hc] at h
+    | ok a =>
+      cases hs : eanChecksumB a with
+      | error e => simp [hc, hs] at h
+      | ok c =>
+        simp only [hc, hs] at h
+        by_cases hall : allDigits (s ++ itoaSmall c) = true
+        · simp only [hall, Bool.not_true, Bool.false_eq_true, if_false] at h
+          have hall' : allDigits s = true := by
+            simp only [allDigits, List.all_append, Bool.and_eq_true] at hall
+            exact hall.1
+          cases s with
+          | nil => simp at h7
+          | cons b tl =>
+            simp only [List.cons_append] at h
+            by_cases hb : b = 48 ∨ b = 49
+            · exact ⟨hall', Or.inl h7, by simpa using hb⟩
+            · simp [hb] at h
+        · simp [hall] at h
+  · by_cases h8 : s.length = 8
+    · simp only [h7, if_false] at h
+      simp only [h8, if_true] at h
+      cases hc : convertUPCEtoUPCA s with
+      | error e => simp [hc] at h
+      | ok a =>
+        cases hs : checkStandardB a with
+        | error e => simp [hc, hs] at h
+        | ok c =>
+          cases c with
+          | false => simp [hc, hs] at h
+          | true =>
+            simp only [hc, hs] at h
+            by_cases hall : allDigits s = true
+            · simp only [hall, Bool.not_true, Bool.false_eq_true, if_false] at h
+              cases s with
+              | nil => simp at h8
+              | cons b tl =>
+                by_cases hb : b = 48 ∨ b = 49
+                · exact ⟨hall, Or.inr h8, by simpa using hb⟩
+                · simp [hb] at h
+            · simp [hall] at h
+    · simp [h7, h8] at h
+
+theorem upce_full (s full : List Nat) (h : upceWriterContents s = .ok full) :
+    ∃ fd, full = digitBytes fd ∧ fd.length = 8 ∧ (∀ d ∈ fd, d < 10) ∧ (fd.head? = some 0 ∨ fd.head? = some 1) ∧
+      readerAccept .upce full = .ok () := by
+  obtain ⟨hall, hlen, hhead⟩ := upce_key s full h
+  obtain ⟨ds, rfl, hds⟩ := allDigits_exists s hall
+  have hdl : (digitBytes ds).length = ds.length := by simp [digitBytes]
+  rw [hdl] at hlen
+  have hns : ds.head? = some 0 ∨ ds.head? = some 1 := by
+    cases ds with
+    | nil => simp at hlen
+    | cons d tl =>
+      simp only [digitBytes, List.map_cons, List.head?_cons, Option.some.injEq] at hhead ⊢
+      omega
+  rcases hlen with h7 | h8
+  · obtain ⟨a, c, hea, hc10, hcd, hw, hacc⟩ := Properties.C10.upce_check_on_expansion ds h7 hds hns
+    rw [hw] at h
+    cases h
+    refine ⟨ds ++ [c], rfl, by simp; omega, ?_, ?_, hacc⟩
+    · intro d hd
+      simp only [List.mem_append, List.mem_singleton] at hd
+      rcases hd with hd | rfl
+      · exact hds d hd
+      · exact hc10
+    · cases ds with
+      | nil => simp at h7
+      | cons d tl => simpa using hns
+  · obtain ⟨a, hea, hw⟩ := Properties.C10.upce_writer_rejects_wrong_check ds h8 hds
+    rw [hw] at h
+    split at h
+    · rename_i hcond
+      cases h
+      obtain ⟨a', hea', hacc⟩ := Properties.C10.upce_reader_accept_iff ds h8 hds
+      rw [hea] at hea'
+      cases hea'
+      rw [if_pos hcond.1] at hacc
+      exact ⟨ds, rfl, h8, hds, hns, hacc⟩
+    · cases h
+
+theorem wfParity2_rows (T : Tables) (hT : WFFacts T) :
+    ∃ r0 r1, T.upceParity = [r0, r1] ∧ r0.length = 10 ∧ r1.length = 10 := by
+  have h := hT.up
+  unfold WFParity2 at h
+  split at h
+  · rename_i r0 r1 he
+    simp only [Bool.and_eq_true, beq_iff_eq] at h
+    exact ⟨r0, r1, he, h.1.1, h.1.2⟩
+  · cases h
+
+theorem upce_modules_eq (T : Tables) (hT : WFFacts T) (contents : List Nat) (d0 d1 d2 d3 d4 d5 d6 d7 : Nat)
+    (hd : ∀ d ∈ [d0, d1, d2, d3, d4, d5, d6, d7], d < 10) (hns : d0 = 0 ∨ d0 = 1)
+    (hw : upceWriterContents contents = .ok (digitBytes [d0, d1, d2, d3, d4, d5, d6, d7])) :
+    upceModules T contents = .ok (appendPattern (T.startEnd ++
+      digitWidths (lAndG T.lPatterns)
+        [lgIdx ((T.upceParity.getD d0 []).getD d7 0) 0 d1, lgIdx ((T.upceParity.getD d0 []).getD d7 0) 1 d2,
+         lgIdx ((T.upceParity.getD d0 []).getD d7 0) 2 d3, lgIdx ((T.upceParity.getD d0 []).getD d7 0) 3 d4,
+         lgIdx ((T.upceParity.getD d0 []).getD d7 0) 4 d5, lgIdx ((T.upceParity.getD d0 []).getD d7 0) 5 d6] ++
+      T.upceEnd) true) := by
+  obtain ⟨r0, r1, hrows, hr0, hr1⟩ := wfParity2_rows T hT
+  simp only [List.mem_cons, List.mem_nil_iff, or_false, forall_eq_or_imp, forall_eq] at hd
+  obtain ⟨h0, h1, h2, h3, h4, h5, h6, h7⟩ := hd
+  have hfirst : nth [d0, d1, d2, d3, d4, d5, d6, d7] 0 = .ok d0 := by simp [nth]
+  have hchk : nth [d0, d1, d2, d3, d4, d5, d6, d7] 7 = .ok d7 := by simp [nth]
+  have hrow := nth_getD T.upceParity d0 (by rw [hrows]; simp; omega)
+  have hrl : (T.upceParity.getD d0 []).length = 10 := by
+    rw [hrows]; rcases hns with rfl | rfl <;> simpa
+  have hpar := nthN_getD (T.upceParity.getD d0 []) d7 (by omega)
+  have hleft := leftHalf_eq T hT d0 d1 d2 d3 d4 d5 d6 [d7] ((T.upceParity.getD d0 []).getD d7 0) h1 h2 h3 h4 h5 h6
+  unfold upceModules
+  simp only [hw, bind, Except.bind, pure, Except.pure, digitVals_digitBytes, hfirst, hchk, hrow, hpar, hleft]
+  have h20 := lAndG_length T hT
+  obtain ⟨e1, _⟩ := digitWidths_shape hT.tabLG
+    [lgIdx ((T.upceParity.getD d0 []).getD d7 0) 0 d1, lgIdx ((T.upceParity.getD d0 []).getD d7 0) 1 d2,
+     lgIdx ((T.upceParity.getD d0 []).getD d7 0) 2 d3, lgIdx ((T.upceParity.getD d0 []).getD d7 0) 3 d4,
+     lgIdx ((T.upceParity.getD d0 []).getD d7 0) 4 d5, lgIdx ((T.upceParity.getD d0 []).getD d7 0) 5 d6] (by
+      intro i hi
+      rw [h20]
+      simp only [List.mem_cons, List.mem_nil_iff, or_false] at hi
+      rcases hi with rfl | rfl | rfl | rfl | rfl | rfl <;> exact lgIdx_lt _ _ _ (by assumption))
+  congr 1
+  simp only [appendPattern_append, List.length_append, e1]
+  have p1 : ¬ T.startEnd.length % 2 = 0 := by have := hT.gOdd; omega
+  have p2 : ¬ (T.startEnd.length + 4 * [lgIdx ((T.upceParity.getD d0 []).getD d7 0) 0 d1,
+     lgIdx ((T.upceParity.getD d0 []).getD d7 0) 1 d2,
+     lgIdx ((T.upceParity.getD d0 []).getD d7 0) 2 d3, lgIdx ((T.upceParity.getD d0 []).getD d7 0) 3 d4,
+     lgIdx ((T.upceParity.getD d0 []).getD d7 0) 4 d5, lgIdx ((T.upceParity.getD d0 []).getD d7 0) 5 d6].length) % 2 = 0 := by
+    have := hT.gOdd; simp; omega
+  simp only [p1, p2, if_false, Bool.not_true]
+
+theorem upce_core (T : Tables) (hWF : WFUpcEan T = true)
+    (contents full : List Nat) (hw : upceWriterContents contents = .ok full)
+    (lq s rq : Nat) (hs : 0 < s) (hlq : s * sumL T.startEnd ≤ lq) (hrq : s * sumL T.upceMiddleEnd < rq) :
+    ∃ mods, upceModules T contents = .ok mods ∧ decodeRow T .upce (paddedRow lq s rq mods) = .ok full := by
+  have hT := wfFacts T hWF
+  rw [hT.eEq] at hrq
+  obtain ⟨fd, rfl, hlen, hd, hns, hacc⟩ := upce_full contents full hw
+  match fd, hlen with
+  | [d0, d1, d2, d3, d4, d5, d6, d7], _ =>
+    have hns' : d0 = 0 ∨ d0 = 1 := by simpa using hns
+    have hm := upce_modules_eq T hT contents d0 d1 d2 d3 d4 d5 d6 d7 hd hns' hw
+    refine ⟨_, hm, ?_⟩
+    have hd' := hd
+    simp only [List.mem_cons, List.mem_nil_iff, or_false, forall_eq_or_imp, forall_eq] at hd'
+    obtain ⟨h0, h1, h2, h3, h4, h5, h6, h7⟩ := hd'
+    have h20 := lAndG_length T hT
+    obtain ⟨r0, r1, hrows, hr0, hr1⟩ := wfParity2_rows T hT
+    have hup := hT.up
+    rw [hrows] at hup
+    obtain ⟨hb0, hb1, _⟩ := Properties.C10.upce_parity_bijective r0 r1 hup
+    generalize hp : (T.upceParity.getD d0 []).getD d7 0 = p at *
+    have hp64 : p < 64 := by
+      rw [← hp]
+      have hrl : (T.upceParity.getD d0 []).length = 10 := by
+        rw [hrows]; rcases hns' with rfl | rfl <;> simpa
+      have hmem : T.upceParity.getD d0 [] ∈ T.upceParity := by
+        rw [hrows]; rcases hns' with rfl | rfl <;> simp
+      rw [getD_eq_getElem _ _ _ (by omega)]
+      exact hT.up64 _ hmem _ (List.getElem_mem _)
+    have hdet : determineNumSysAndCheckDigit T.upceParity
+        (lgWord 6 [lgIdx p 0 d1, lgIdx p 1 d2, lgIdx p 2 d3, lgIdx p 3 d4, lgIdx p 4 d5, lgIdx p 5 d6]) = .ok (d0, d7) := by
+      rw [lgWord_lgIdx p d1 d2 d3 d4 d5 d6 hp64 h1 h2 h3 h4 h5 h6, hrows, ← hp, hrows]
+      rcases hns' with rfl | rfl
+      · obtain ⟨hlt, hh⟩ := hb0 d7 h7
+        simp only [List.getD_cons_zero]
+        rw [getD_eq_getElem _ _ _ hlt]; exact hh
+      · obtain ⟨hlt, hh⟩ := hb1 d7 h7
+        simp only [List.getD_cons_succ, List.getD_cons_zero]
+        rw [getD_eq_getElem _ _ _ hlt]; exact hh
+    obtain ⟨F1, F2, F3, F6, F7⟩ := upce_facts T hT
+      [lgIdx p 0 d1, lgIdx p 1 d2, lgIdx p 2 d3, lgIdx p 3 d4, lgIdx p 4 d5, lgIdx p 5 d6]
+      (by
+        intro i hi
+        rw [h20]
+        simp only [List.mem_cons, List.mem_nil_iff, or_false] at hi
+        rcases hi with rfl | rfl | rfl | rfl | rfl | rfl <;> exact lgIdx_lt _ _ _ (by assumption))
+      lq s rq hs hlq hrq _ rfl
+    have e6 : ∀ (a b c d e f : Nat), [a, b, c, d, e, f].length = 6 := fun _ _ _ _ _ _ => rfl
+    simp only [e6] at F2 F3 F6 F7
+    generalize paddedRow lq s rq _ = row at *
+    have hres : ((48 + d0) :: List.map (fun m => 48 + m % 10)
+          [lgIdx p 0 d1, lgIdx p 1 d2, lgIdx p 2 d3, lgIdx p 3 d4, lgIdx p 4 d5, lgIdx p 5 d6]) ++ [48 + d7]
+        = digitBytes [d0, d1, d2, d3, d4, d5, d6, d7] := by
+      simp only [List.map_cons, List.map_nil, lgIdx_mod _ _ _ h1, lgIdx_mod _ _ _ h2, lgIdx_mod _ _ _ h3,
+        lgIdx_mod _ _ _ h4, lgIdx_mod _ _ _ h5, lgIdx_mod _ _ _ h6, digitBytes, List.cons_append, List.nil_append,
+        Nat.add_comm 48]
+    simp only [decodeRow, F1, notFoundOf, bind, Except.bind, decodeWithStart, upceDecodeMiddle, F2, F3,
+      pure, Except.pure, hdet, Nat.add_sub_cancel_left, F6, F7, if_false, Bool.not_true, Bool.false_eq_true,
+      reduceCtorEq]
+    rw [hres, hacc]
+
 end Gzx.OneD
